@@ -48,6 +48,8 @@ type c09bTracer struct {
 	closes int
 	// positions settled by the liquidation list and closed by the stop-loss / take-profit list of the SAME message
 	resettled int
+	// liquidations without a return whose custody net of interest exceeded the repay amount (the funding fee took the difference)
+	fundedOut int
 }
 
 func (c *c09bTracer) denoms() [2]string { return [2]string{USDC, c.trade} }
@@ -363,6 +365,14 @@ func (c *c09bTracer) step(ops []BankOp, kind string, res TxResult) {
 				if ret.IsPositive() { // closing custody = return + repay amount; the rest of the custody went to funding
 					ftake = cc.Sub(ret.Add(rp))
 					cc = ret.Add(rp)
+				} else if cc.GT(rp) {
+					// nothing was returned although the custody net of interest exceeds the (estimated) repay amount: CalcReturnAmount saw a
+					// closing custody BELOW the repay amount, i.e. the funding fee taken by SettleFunding just before (months of funding on a
+					// position nobody touched) brought it under it. The event does not carry the custody at that moment; every split with
+					// closing custody <= repay amount moves the same totals (no return, custody aggregate down by take + closing custody).
+					ftake = cc.Sub(rp)
+					cc = rp
+					c.fundedOut++
 				}
 			}
 			items = append(items, c.item(settle, b, take, pay.Sub(take), ftake, fmt.Sprintf("(Some (%s, %s))", c09bZ(cc), c09bZ(rp)), b.Collateral, b.Liabilities))
@@ -660,7 +670,7 @@ func (c *c09bTracer) finish(col *Collector) {
 	col.mu.Lock()
 	defer col.mu.Unlock()
 	for k, v := range map[string]int{"backing_close_positions_items": c.items, "backing_items_aborted_after_transfer": c.aborts, "backing_opens": c.opens, "backing_user_closes": c.closes,
-		"backing_items_settled_then_closed_by_another_list": c.resettled} {
+		"backing_items_settled_then_closed_by_another_list": c.resettled, "backing_liquidations_emptied_by_funding": c.fundedOut} {
 		n, _ := col.rep.Extra[k].(int)
 		col.rep.Extra[k] = n + v
 	}
